@@ -80,7 +80,10 @@ CLAIMED["C01"] = {
             "(every arm: and / or in both polarities, not, implies, iff, xor); try_lower_affine_logic_assertion and lower_logic_assertion make the grown context demand the asserted truth value wherever the expression is defined (every arm); "
             "the model-level loop now uses lower_logic_assertion through this proved contract instead of an assumed one. "
             "BOUNDED (labelled, not counted as proved): the logic lowerings are ALSO checked on the real Linearizer::linearize exhaustively per model - about 7800 single-constraint models over four Boolean variables (every connective pairwise over 18 shapes, third-level samples, asserted / denied / used as 0/1 values in comparisons), all 16 assignments, all values of the Boolean auxiliaries - in BOTH directions (nothing infeasible let in, nothing feasible cut off). "
-            "NOT decided / assumed deductively (listed in the evidence): the logic arms of Exp::linearize (reified and / or / xor / implies / iff VALUES, reached through linearize_binary_operands: assumed arms; bounded check above), try_normalize_logic_constraint (assumed), the converse direction (no source-feasible point is cut off; big-M constants large enough), "
+            "The logic arms of Exp::linearize are proved too (U01.reify, U01.lgA, U01.lgB): not e is the affine form 1 - e of a 0/1-valued operand; the reified and / or / implies / iff / xor auxiliaries EQUAL the connective's value wherever it is defined "
+            "(from the queued comparisons z <= e_i, z >= sum - (n-1), ...); try_normalize_logic_constraint is proved (U01.norm): a reported tautology holds, a reported assertion implies the comparison, under the declared domains. "
+            "With these, every arm of Exp::linearize and every function between the model-level loop and the emitted rows is under a discharged contract in the soundness direction. "
+            "NOT decided deductively (listed in the evidence): the converse direction (no source-feasible point is cut off; big-M constants large enough), "
             "domain publication after the loop, the equivalence between a sparse row and its dense coefficient vector (U08.coef gives the vector entry-wise), termination.",
     "note": "Trusted: prelude/f64_layer.rs (floats as exact extended reals), prelude/smap.rs (IndexMap<String,_> view), prelude/std_stubs.rs. BoundsAnalyzer::bounds_of is used through its contract, proved in U07.fwd. "
             "Rules: format! abstracted to opaque strings (R6), auxiliary counters abstracted (R21), masked arms end in a diverging stub.",
